@@ -298,12 +298,22 @@ fn is_variable_usage_allowed(
     variable_def: &ast::VariableDefinition,
     variable_usage: &ast::InputValueDefinition,
 ) -> bool {
+    is_variable_usage_allowed_at(
+        variable_def,
+        &variable_usage.ty,
+        variable_usage.default_value.is_some(),
+    )
+}
+
+/// <https://spec.graphql.org/October2021/#IsVariableUsageAllowed()>
+/// for a usage located at an Argument, ObjectField, or ListValue entry of type `location_ty`
+pub(crate) fn is_variable_usage_allowed_at(
+    variable_def: &ast::VariableDefinition,
+    location_ty: &ast::Type,
+    has_location_default_value: bool,
+) -> bool {
     // 1. Let variable_ty be the expected type of variable_def.
     let variable_ty = &variable_def.ty;
-    // 2. Let location_ty be the expected type of the Argument,
-    // ObjectField, or ListValue entry where variableUsage is
-    // located.
-    let location_ty = &variable_usage.ty;
     // 3. if location_ty is a non-null type AND variable_ty is
     // NOT a non-null type:
     if location_ty.is_non_null() && !variable_ty.is_non_null() {
@@ -314,10 +324,6 @@ fn is_variable_usage_allowed(
             .default_value
             .as_ref()
             .is_some_and(|value| !value.is_null());
-        // 3.b. Let hasLocationDefaultValue be true if a default
-        // value exists for the Argument or ObjectField where
-        // variableUsage is located.
-        let has_location_default_value = variable_usage.default_value.is_some();
         // 3.c. If hasNonNullVariableDefaultValue is NOT true
         // AND hasLocationDefaultValue is NOT true, return
         // false.
@@ -327,7 +333,7 @@ fn is_variable_usage_allowed(
 
         // 3.d. Let nullable_location_ty be the unwrapped
         // nullable type of location_ty.
-        return variable_ty.is_assignable_to(&location_ty.as_ref().clone().nullable());
+        return variable_ty.is_assignable_to(&location_ty.clone().nullable());
     }
 
     variable_ty.is_assignable_to(location_ty)
